@@ -194,10 +194,68 @@ def run(chk):
         if o:
             chk.violation("oracle:c07:restart", "decoding restarted by a vorbisfile seek differs from the uninterrupted decode: " + o, {"stream": "c07", "ops": d["ops"]}, True)
     chk.coverage["vorbisfile_restart_cases"] = len(vcases)
+    # ---- part 4: a fresh decoder started in mid-stream on generated set-ups (floor 0 and 1, coupling, several submaps): from the second
+    # packet on it must produce bit for bit what the decoder that saw the whole stream produces (no state built lazily from earlier packets)
+    from . import c01 as C1, gen_setup as G
+    cands = V.valid_setups(chk.rng, 120 if chk.tier == "quick" else 600, combos=[(6, 8), (7, 8), (6, 7), (6, 6), (8, 8)], sane=True, channels=[2, 2, 3])
+    # prefer set-ups where lazily built per-block-size state could matter: floor 0, coupling, two block sizes in use
+    def score(su):
+        f = C1.features(su)
+        return ("floor0" in f) + ("coupling" in f) + ("mixed-blocks" in f)
+    cands.sort(key=lambda su: -score(su))
+    sus = cands[:24 if chk.tier == "quick" else 160]
+    fcases, meta4 = [], []
+    for i, su in enumerate(sus * 3):
+        npk = 14
+        st = chk.rng.randrange(1, npk - 6)
+        flags = su["flags"]
+        shorts = [m for m, fl in enumerate(flags) if not fl] or list(range(len(flags)))
+        longs = [m for m, fl in enumerate(flags) if fl] or shorts
+        # the other block size first occurs a few packets after the restart point, often with "first channel without a floor"
+        first_long = st + chk.rng.randrange(2, 5)
+        modes = [chk.rng.choice(shorts) if k < first_long else chk.rng.choice(longs + shorts) for k in range(npk + 1)]
+        modes[first_long] = chk.rng.choice(longs)
+        if chk.rng.random() < 0.5:
+            modes = [chk.rng.choice(longs) if k < first_long else chk.rng.choice(longs + shorts) for k in range(npk + 1)]
+            modes[first_long] = chk.rng.choice(shorts)
+        full = C1.gen_case(chk.rng, 8000 + 2 * i, su, npk, modes=modes, jfix=1)
+        pk = [o for o in full if o.startswith("pkt ")]
+        head = [o for o in full if not o.startswith("pkt ")]
+        fcases.append(full)
+        fcases.append(["case %d" % (8001 + 2 * i)] + head[1:] + pk[st:])
+        meta4.append(st)
+
+    def per_packet(lines):
+        out, cur = [], None
+        for l in lines[1:]:
+            if l.startswith("pkt "):
+                cur = [l]
+                out.append(cur)
+            elif l.startswith("pcm ") and cur is not None:
+                cur.append(l)
+        return out
+    fres = vlib.run_harness_only("c01", fcases, timeout=1800)
+    nfresh = 0
+    for i, st in enumerate(meta4):
+        a, b = fres[2 * i], fres[2 * i + 1]
+        if a["c"] is None or b["c"] is None:
+            crash += [x for x in (a, b) if x["c"] is None]
+            continue
+        pa, pb = per_packet(a["c"]), per_packet(b["c"])
+        # the first packet of a fresh decoder returns nothing; the output after its second packet is the overlap of its first two blocks,
+        # which is all the full decoder uses there too
+        for k in range(1, len(pb)):
+            if st + k < len(pa) and pa[st + k] != pb[k]:
+                chk.violation("oracle:c01:fresh-decoder", "a decoder started at packet %d gives, %d packets later, output that differs from the decoder that saw the whole stream "
+                              "(first differing line: %s)" % (st, k, next((x[:60] for x, y in zip(pb[k], pa[st + k]) if x != y), "count")),
+                              {"stream": "c01", "ops": fcases[2 * i], "restart_at_packet": st, "suffix_ops": fcases[2 * i + 1][:8]}, True)
+                break
+        nfresh += 1
+    chk.coverage["fresh_decoder_cases"] = nfresh
     chk.coverage["rule"] = ("(1) direct mode: vorbis_synthesis_blockin on marker blocks (every sample encodes its packet and index) over 14 configurations, half-rate on/off, random window "
                             "flags and restarts; every returned sample is recomputed from the Lean model's provenance cell and the library's own window table with exact single-precision "
                             "arithmetic and compared bit for bit. (2) real streams decoded with one packet dropped / duplicated / truncated / bit-flipped / decoding restarted (with and "
-                            "without a fresh vorbis_block), granule positions on every packet or only on every 3rd/7th/20th/50th as after Ogg paging, ASan build and plain build under heap perturbation: outputs of packets before j and from j+2 on must be bit-identical. (3) decoding restarted through vorbisfile: read on, seek back (also into the first data page of the same link), read: bit-identical to the uninterrupted decode. "
+                            "without a fresh vorbis_block), granule positions on every packet or only on every 3rd/7th/20th/50th as after Ogg paging, ASan build and plain build under heap perturbation: outputs of packets before j and from j+2 on must be bit-identical. (3) decoding restarted through vorbisfile: read on, seek back (also into the first data page of the same link), read: bit-identical to the uninterrupted decode. (4) generated set-ups (floor 0/1, coupling, submaps) with random packets: a fresh decoder started in mid-stream against the decoder that saw everything, from its second packet on (3 packet sequences per set-up; the other block size first used a few packets after the restart, often with the first channel's floor unused). "
                             "distinct = distinct configurations x flag sequences / fault lists")
     chk.coverage["cells_compared_bit_exact"] = cells_checked
     chk.coverage["faults_injected"] = nfaults
@@ -208,6 +266,10 @@ def run(chk):
 
 
 def replay(chk, obj):
+    if obj["replay"].get("stream") == "c01":
+        for r in vlib.run_harness_only("c01", [obj["replay"]["ops"]]):
+            print("\n".join(l[:200] for l in (r["c"] or [])))
+        return
     if obj["replay"].get("stream") == "c07":
         return __import__("checks.c07", fromlist=["replay"]).replay(chk, obj)
     res = vlib.run_harness_only("c11", [obj["replay"]["ops"]])
